@@ -17,6 +17,7 @@ LEMMAS = {
     "sum_le": "(forall i in [0,n). a[i] <= b[i]) -> Sum(a,n) <= Sum(b,n)",
     "sum_bounds": "n >= 1 and (forall i. lo <= a[i] <= hi) -> n*lo <= Sum(a,n) <= n*hi",
     "sort_perm": "numpy.sort(a) is non-decreasing and a permutation of a",
+    "sum_zero_terms": "(forall i in [0,n). a[i] >= 0) and Sum(a,n) <= 0 -> forall i in [0,n). a[i] <= 0",
 }
 
 RA = z3.ArraySort(z3.IntSort(), z3.RealSort())
@@ -90,6 +91,13 @@ def sum_term(E, a, n):
     E._sum_apps_for_path().append((a, n, S))
     E.used_lemmas.update(["sum_empty", "sum_nonneg", "sum_nonpos"])
     return S
+
+
+def sum_zero_terms(E, app):
+    """non-negative terms with a sum <= 0 are all zero (instance for one application)"""
+    a, n, S = app
+    E.axiom(z3.Implies(z3.And(_all_in(n, lambda i: z3.Select(a, i) >= 0), S <= 0), _all_in(n, lambda i: z3.Select(a, i) <= 0)))
+    E.used_lemmas.add("sum_zero_terms")
 
 
 def sum_congr(E, app1, app2, le=False):
